@@ -413,6 +413,7 @@ func runC20(c *Ctx) {
 	// "every node of every currently registered pipeline": the chain stored at registration links
 	// every listed node (a chain cut short is never walked by Reopen either)
 	c.ruleLink("C20.link")
+	c.ruleChainImmutable("C20.link")
 	// ... and it is linked, by every successful registration, from the nodes registered under the
 	// definition's ids AT THAT MOMENT (the commit rule of C05/C07): a registration that keeps an
 	// older chain leaves a replaced node in place, which Reopen then never reaches
